@@ -331,6 +331,8 @@ class Engine:
                     if len(hit) != 1:
                         raise Unsupported(f"downcast of {v.name} to {step[1]}")
                     cur = Cell(Agg(step[1], [Cell(x) for x in hit[0]]))
+                elif isinstance(v, Opaque) and v.what == "enum":
+                    cur = Cell(Agg(step[1], [Cell(Opaque("enum-payload", step[1]))]))
                 elif isinstance(v, Opaque) and v.what == "result" and step[1] in ("Ok", "Err"):
                     cur = Cell(Agg(step[1], [Cell(v.data[1] if step[1] == "Ok" else v.data[2])]))
                 elif isinstance(v, Z) and v.e.sort() == DnValue:
@@ -439,6 +441,9 @@ class Engine:
             parts = split_top(rhs[1:-1])
             dst.v = Agg("tuple", [Cell(self.operand(st, frame, p)) for p in parts if p])
             return
+        if rhs.startswith("[") and rhs.endswith("]") and ";" not in rhs:
+            dst.v = Agg("array", [Cell(self.operand(st, frame, p)) for p in split_top(rhs[1:-1]) if p])
+            return
         m = re.match(r"^(.*) as (.*) \((\w+)(\(.*\))?\)$", rhs)
         if m:
             dst.v = self.models.cast(self.operand(st, frame, m.group(1)), m.group(2), m.group(3))
@@ -461,8 +466,8 @@ class Engine:
                 return
             dst.v = Agg(kind, [Cell(o) for o in ops])
             return
-        if re.fullmatch(r"[A-Za-z_][\w:]*::[A-Z]\w*", rhs):
-            dst.v = Opaque("unit-variant", rhs)      # e.g. error::Error::IssuerNotCrlSigner
+        if re.fullmatch(r"[A-Za-z_][\w:]*::[A-Z]\w*", rhs) or re.fullmatch(r"[A-Z][A-Za-z0-9]*", rhs):
+            dst.v = Opaque("unit-variant", rhs)      # e.g. error::Error::IssuerNotCrlSigner; a `use`d variant prints bare (ClientAuth)
             return
         dst.v = self.operand(st, frame, rhs)
 
